@@ -34,8 +34,8 @@ TIE_FOR = {
     'C07': ['TieClasses', 'TieReducers', 'TieMath', 'TieFormulas', 'TieOrch', 'TieRules', 'TieRoute'],
     'C08': ['TieReducers', 'TieRules', 'TieNorm', 'TieStep', 'TieUtil', 'TieRebuild', 'TieEntry'],
     'C09': ['TieCache', 'TieBound', 'TieCacheBody', 'TieStep'], 'C10': ['TieWrites', 'TieUtil', 'TieRebuild'], 'C11': ['TieReducers', 'TieBound', 'TieRules', 'TieStep', 'TieUtil', 'TieRebuild'],
-    'C12': ['TieClasses', 'TieObj'], 'C13': ['TiePublic', 'TieObj'], 'C14': ['TieSets', 'TieRoute', 'TieCtor'], 'C15': ['TieOperators', 'TieCtor'],
-    'C16': ['TieClasses', 'TieCtor', 'TieRebuild'], 'C17': ['TieClasses', 'TieMath', 'TieCtor'], 'C18': ['TieSets'],
+    'C12': ['TieClasses', 'TieObj', 'TieCtor'], 'C13': ['TiePublic', 'TieObj', 'TieCtor'], 'C14': ['TieSets', 'TieRoute', 'TieCtor', 'TieClasses'], 'C15': ['TieOperators', 'TieCtor'],
+    'C16': ['TieClasses', 'TieCtor', 'TieRebuild'], 'C17': ['TieClasses', 'TieMath', 'TieCtor'], 'C18': ['TieSets', 'TieRoute', 'TieCacheBody', 'TieEntry', 'TieAcc'],
 }
 
 
